@@ -89,6 +89,47 @@ func c20itfFast(v int32, buf, ref *[8]byte) (ok bool) {
 	return dok && got == v && dn == n
 }
 
+// c20ltfFast is the allocation-free form of the oracle in c20ltfValue for the 2^32-value
+// sweeps: spec bytes computed inline (CRAM v3 section 2.3), Encode into a slice of exactly the
+// spec length, Len, Decode of that slice. Any disagreement or panic sends the value down the
+// slow path.
+func c20ltfFast(v int64, buf, ref *[9]byte) (ok bool) {
+	defer func() {
+		if recover() != nil {
+			ok = false
+		}
+	}()
+	u := uint64(v)
+	n := 9
+	for k := 1; k <= 8; k++ {
+		if u < uint64(1)<<uint(7*k) {
+			n = k
+			break
+		}
+	}
+	w := u
+	for i := n - 1; i >= 1; i-- {
+		ref[i] = byte(w)
+		w >>= 8
+	}
+	if n == 9 {
+		ref[0] = 0xff
+	} else {
+		ref[0] = byte(0xff<<uint(9-n)) | byte(w)
+	}
+	b := buf[:n:n]
+	if ltf8.Len(v) != n || ltf8.Encode(b, v) != n {
+		return false
+	}
+	for i := 0; i < n; i++ {
+		if b[i] != ref[i] {
+			return false
+		}
+	}
+	got, dn, dok := ltf8.Decode(b)
+	return dok && got == v && dn == n
+}
+
 func c20ltfValue(c *Ctx, v int64) {
 	ref := refimpl.LTF8(v)
 	cas := c20case{Codec: "ltf8", Kind: "value", Value: v}
@@ -217,7 +258,7 @@ func c20bytes(c *Ctx, codec string, b []byte) {
 }
 
 func c20(c *Ctx) {
-	c.Rule = "ITF-8: quick = all values < 2^16, all (v<<16), every nibble position x nibble value on 4 backgrounds, 4-byte products over a 10-byte alphabet, +-2 around every length-class boundary; thorough = all 2^32 values. LTF-8: per length class the product of first-byte payload {0, all ones, alternating} x trailing bytes in {00,5a,80,ff}, +-2 around every class boundary, extremes. Each value: Len, Encode into an exact-size buffer, bytes vs CRAM spec encoder, Decode. Byte strings: all 256 first bytes x available length 0..9 x fillers {00,ff,a5} through Decode (exact-capacity slice) and the cram stream readers (counting reader). Non-trivial = multi-byte encodings / strings with announced length >= 2."
+	c.Rule = "ITF-8: all 2^32 values in both tiers. LTF-8: thorough = all 2^32 low words under each of 19 high words (every length-class boundary above 2^32 with its neighbours, the sign boundary, mixed patterns) and every pair of adjacent byte positions through all 2^16 values on three backgrounds; both tiers: per length class the product of first-byte payload {0, all ones, alternating} x trailing bytes in {00,5a,80,ff}, +-2 around every class boundary, extremes. Each value: Len, Encode into an exact-size buffer, bytes vs CRAM spec encoder, Decode. Byte strings: all 256 first bytes x available length 0..9 x fillers {00,ff,a5} through Decode (exact-capacity slice) and the cram stream readers (counting reader). Non-trivial = multi-byte encodings / strings with announced length >= 2."
 	c.Assume("refimpl/tf8.go implements CRAM v3 §2.3 correctly (independent of the library)")
 	c.Assume("Go bounds checks turn any access beyond an exact-capacity buffer into a panic")
 	if c.Replay != nil {
@@ -379,6 +420,33 @@ func c20(c *Ctx) {
 		c.Eval(7 * 3 << 16)
 		c.NontrivialN(cnt - 2) // the two backgrounds 0/ff.. coincide only at their own x; conservative
 		c.AddExtra("ltf8_pair_sweep_values", int64(7*3<<16))
+		// all 2^32 low words under each of a set of high words: every length-class boundary
+		// that lies above 2^32 (2^35, 2^42, 2^49, 2^56) with its neighbours, the sign
+		// boundary, and two mixed patterns
+		highs := []uint32{0, 1, 7, 8, 9, 0x3ff, 0x400, 0x401, 0x1ffff, 0x20000, 0x20001, 0xffffff, 0x1000000, 0x1000001,
+			0x7fffffff, 0x80000000, 0xffffffff, 0xa5a5a5a5, 0x5a5a5a5a}
+		var lfail int64
+		for _, h := range highs {
+			h := h
+			parallel(1<<12, func(i int) {
+				lo := uint64(i) << 20
+				var buf, ref [9]byte
+				fails := 0
+				for l := lo; l < lo+1<<20; l++ {
+					v := int64(uint64(h)<<32 | l)
+					if !c20ltfFast(v, &buf, &ref) {
+						if fails++; fails <= 4 {
+							c20ltfValue(c, v)
+						}
+					}
+				}
+				atomic.AddInt64(&lfail, int64(fails))
+			})
+		}
+		c.Eval(int64(len(highs)) << 32)
+		c.NontrivialN(int64(len(highs))<<32 - 128)
+		c.AddExtra("ltf8_low_word_sweeps", int64(len(highs)))
+		c.AddExtra("ltf8_sweep_values_failing", lfail)
 	}
 	lvals := make([]int64, 0, len(lset))
 	for v := range lset {
